@@ -669,7 +669,10 @@ func genPlan(rt *rapid.T) *plan {
 	// idle phase: after k complete exchanges the client goes silent and the origin closes the idle connection
 	if first := firstValid(p); first >= 0 && first+1 < len(p.Reqs) && chance(rt, 14, "idle-phase") {
 		p.IdleAt = irange(rt, first+1, len(p.Reqs)-1, "idle-at")
-		p.OriginIdleSec = sample(rt, []int{60, 5, 30, 600 - 1}, "origin-idle")
+		// every value leaves room for the origin's own pauses (at most 20 x maxFinalDelaySec) and the
+		// lenient Expect waits (20 x 1 s) inside the client's pause of idlePause = 10 min: when the client
+		// resumes the origin has closed for certain
+		p.OriginIdleSec = sample(rt, []int{60, 5, 30, 480}, "origin-idle")
 	} else if chance(rt, 5, "client-abort") {
 		p.ClientAbort = irange(rt, 0, max(0, total-1), "abort-at")
 	}
